@@ -98,6 +98,16 @@ def gen_histories(ctx, prop):
         if k not in seen:
             seen.add(k)
             uniq.append(h)
+    if prop in ("C01", "C02", "C04"):
+        # the same monitors also over the PID-reuse histories of C09 (a pid used again after - or, for the login,
+        # while - its earlier session ends): identity / exactly-once / silence do not stop at the first use of a pid
+        ex2 = ctx.tlc("Tracker", "Tracker_export.cfg", workers=1, timeout=900,
+                      overrides=CONF["C09"]["ex_q" if ctx.quick else "ex_t"], name="export-reuse")
+        for h in hist_lines(ctx, ex2):
+            k = json.dumps(h, sort_keys=True)
+            if k not in seen:
+                seen.add(k)
+                uniq.append(h)
     nsim = 150 if ctx.quick else 1500
     depth = 400 if ctx.quick else 700
     simov = dict(conf["sim"])
